@@ -62,7 +62,19 @@ func classify(s *Spec, t *Taint, inMark bool) {
 	}
 	N := func(i int) { mark(t.Neutral, s.S[i]) }
 	switch s.K {
-	case "new", "wrap", "withmsg", "wrapferr", "newfwerr", "wrapfgosyntax", "handledmsgf0":
+	case "unimplf":
+		// the message of an unimplemented error is "non-reportable for now" (all of it)
+		U(0)
+		U(1)
+		U(2)
+		Sf(3)
+		Sf(4)
+	case "hintf", "detailf":
+		// hints and details are unsafe as a whole
+		U(0)
+		U(1)
+		U(2)
+	case "new", "wrap", "withmsg", "wrapferr", "newfwerr", "wrapfgosyntax", "handledmsgf0", "stleaf", "stwrap":
 		Sf(0)
 	case "newf", "assertf", "wrapf", "withmsgf", "safedetails", "assertwrap", "newfw", "newfwsuffix", "handledmsgf", "handledsafemsg":
 		Sf(0)
